@@ -431,6 +431,19 @@ def _normalise_syntax(tree):
 
     def one(st):
         """Rewrite one statement (children already normalised) into a list of statements."""
+        # `d.update(k1=e1, k2=e2)` / `d.update({"k1": e1})` on a local name  ->  `d["k1"] = e1; d["k2"] = e2`
+        if isinstance(st, ast.Expr) and isinstance(st.value, ast.Call) and isinstance(st.value.func, ast.Attribute) and st.value.func.attr == "update" and isinstance(st.value.func.value, ast.Name):
+            c_ = st.value
+            items_ = None
+            if not c_.args and c_.keywords and all(k_.arg for k_ in c_.keywords):
+                items_ = [(k_.arg, k_.value) for k_ in c_.keywords]
+            elif len(c_.args) == 1 and not c_.keywords and isinstance(c_.args[0], ast.Dict) and c_.args[0].keys and all(isinstance(k_, ast.Constant) and isinstance(k_.value, str) for k_ in c_.args[0].keys):
+                items_ = [(k_.value, v_) for k_, v_ in zip(c_.args[0].keys, c_.args[0].values)]
+            elif len(c_.args) == 1 and not c_.keywords and isinstance(c_.args[0], ast.Call) and isinstance(c_.args[0].func, ast.Name) and c_.args[0].func.id == "dict" and not c_.args[0].args and c_.args[0].keywords and all(k_.arg for k_ in c_.args[0].keywords):
+                items_ = [(k_.arg, k_.value) for k_ in c_.args[0].keywords]
+            recv_ = c_.func.value.id
+            if items_ and not any(isinstance(x_, ast.Name) and x_.id == recv_ for _k, v_ in items_ for x_ in ast.walk(v_)):
+                return [ast.fix_missing_locations(ast.copy_location(ast.Assign(targets=[ast.Subscript(value=ast.Name(id=recv_, ctx=ast.Load()), slice=ast.Constant(value=k_), ctx=ast.Store())], value=v_), v_)) for k_, v_ in items_]
         if isinstance(st, ast.If) and len(st.body) == 1 and len(st.orelse) == 1 and all(isinstance(s_, ast.Assign) and len(s_.targets) == 1 and isinstance(s_.targets[0], ast.Name) for s_ in (st.body[0], st.orelse[0])) and st.body[0].targets[0].id == st.orelse[0].targets[0].id:
             # `if c: x = False else: x = E`  ->  `x = (not c) and E` ; `if c: x = True else: x = E` -> `x = c or E` (and the mirrored forms)
             a_, b_ = st.body[0].value, st.orelse[0].value
